@@ -515,6 +515,18 @@ def run_c19(tier, seed, keep=False):
         exhaustive(w, "C19", "MC_GraphADT.tla", "MC_G.cfg", "MSpec", ["Mirror", "EdgesAmongPresent", "DomAgree", "ReverseTwice"],
                    dict(gconst, Weights="{1,2}", MaxHandles="2" if q else "3", MaxOps="5" if q else "6"), ev, "graphadt-exhaustive",
                    props=["CopyFresh"], view="MView")
+        # (1b) unbounded histories: mirror / incident-edge invariant of the single-graph core as an INDUCTIVE invariant (Apalache)
+        import subprocess
+        for name, args in (("initiation", ["--init=Init", "--inv=IndInv", "--length=0"]), ("consecution", ["--init=IndInit", "--inv=IndInv", "--length=1"])):
+            t0 = time.time()
+            r = subprocess.run(["timeout", "300", "apalache-mc", "check"] + args + ["--out-dir=" + w.path("apa-" + name), "GraphCore.tla"],
+                               cwd=w.dir, capture_output=True, text=True)
+            ok = "EXITCODE: OK" in r.stdout
+            ev.cov["runs"].append({"name": "apalache-inductive-" + name, "kind": "inductive_invariant", "ok": ok, "wall_s": round(time.time() - t0, 1),
+                                   "cmd": "apalache-mc check " + " ".join(args) + " GraphCore.tla"})
+            if not ok:
+                raise Infra("Apalache could not discharge the %s obligation of GraphCore!IndInv:\n%s" % (name, (r.stdout + r.stderr)[-1500:]))
+        ev.cov["inductive_obligations_discharged"] = 2
         # (2) specification -> implementation: behaviours generated by TLC, replayed on real Graph values
         # (TLC evaluates EmitHist on every candidate successor, so each simulated behaviour yields one history per
         #  possible last operation)
